@@ -4,6 +4,7 @@
 #pragma once
 #include "mc.hpp"
 #include <algorithm>
+#include <functional>
 #include <memory>
 #include <tuple>
 #include <stdexcept>
@@ -14,14 +15,31 @@ namespace c02
 {
     using std::string;
 
-    struct RefMap // what the statement says a map is: unique keys, first insertion wins, [] default-inserts
+    // a comparator whose equivalence is coarser than ==: 0~1, 2~3
+    struct HalfLess
     {
-        std::vector<std::pair<int, int>> kv; // sorted by key
-        int *find(int k)
+        bool operator()(int a, int b) const { return a / 2 < b / 2; }
+    };
+    template <class Cmp> inline bool equiv(int a, int b)
+    {
+        Cmp c;
+        return !c(a, b) && !c(b, a);
+    }
+    template <class Cmp> inline const char *cmpname();
+    template <> inline const char *cmpname<std::less<int>>() { return "less"; }
+    template <> inline const char *cmpname<std::greater<int>>() { return "greater"; }
+    template <> inline const char *cmpname<HalfLess>() { return "half_less"; }
+
+    // what the statement says a map is: keys unique up to the comparator's equivalence, first insertion wins
+    // (and keeps its key), [] default-inserts
+    template <class Cmp> struct RefMapT
+    {
+        std::vector<std::pair<int, int>> kv; // ordered by the comparator
+        std::pair<int, int> *find(int k)
         {
             for (auto &e : kv)
-                if (e.first == k)
-                    return &e.second;
+                if (equiv<Cmp>(e.first, k))
+                    return &e;
             return nullptr;
         }
         bool insert(int k, int v)
@@ -29,13 +47,13 @@ namespace c02
             if (find(k))
                 return false;
             kv.push_back({k, v});
-            std::sort(kv.begin(), kv.end());
+            std::sort(kv.begin(), kv.end(), [](const std::pair<int, int> &a, const std::pair<int, int> &b) { return Cmp()(a.first, b.first); });
             return true;
         }
         int &index(int k)
         {
             insert(k, 0);
-            return *find(k);
+            return find(k)->second;
         }
         size_t size() const { return kv.size(); }
         void clear() { kv.clear(); }
@@ -47,6 +65,7 @@ namespace c02
             return s + "}";
         }
     };
+    using RefMap = RefMapT<std::less<int>>;
 
     struct NoStdMap // placeholder where the host <map> cannot be included (shim TU)
     {
@@ -54,7 +73,7 @@ namespace c02
         void index(int) {}
         void insert(int, int) {}
         void clear() {}
-        bool agrees(const RefMap &) const { return true; }
+        template <class R> bool agrees(const R &) const { return true; }
     };
 
     enum MKind
@@ -82,7 +101,7 @@ namespace c02
         return n[k];
     }
 
-    template <class Map, class StdRef> struct MapModel : mc::Model
+    template <class Map, class StdRef, class Cmp = std::less<int>> struct MapModel : mc::Model
     {
         struct Op
         {
@@ -101,7 +120,8 @@ namespace c02
         const std::vector<Op> &ops;
         const std::vector<std::vector<std::pair<int, int>>> &lists;
         Map *obj[2];
-        RefMap ref[2];
+        using Ref = RefMapT<Cmp>;
+        Ref ref[2];
         StdRef sref[2];
 
         static std::shared_ptr<Tables> tables(int NK, int NV, int maxlist, bool single)
@@ -250,7 +270,7 @@ namespace c02
             fflush(nullptr); // see c02_vector.hpp
             const Op p = ops[o];
             Map &X = *obj[p.x], &Y = *obj[1 - p.x];
-            RefMap &rx = ref[p.x], &ry = ref[1 - p.x];
+            Ref &rx = ref[p.x], &ry = ref[1 - p.x];
             StdRef &sx = sref[p.x], &sy = sref[1 - p.x];
             string op = mkname(p.kind);
             bool present = rx.find(p.a) != nullptr;
@@ -289,7 +309,7 @@ namespace c02
                 auto it = p.kind == M_INSERT_RVALUE ? X.insert(typename Map::value_type(p.a, p.b)) : X.insert(val);
                 rx.insert(p.a, p.b);
                 sx.insert(p.a, p.b);
-                if (it == X.end() || it->first != p.a || it->second != *rx.find(p.a))
+                if (it == X.end() || it->first != rx.find(p.a)->first || it->second != rx.find(p.a)->second)
                     bad(op, "return_value", mc::fmt("insert({%d,%d}) did not return an iterator to the element with that key", p.a, p.b));
                 if (present)
                     mc::nontrivial();
@@ -301,7 +321,7 @@ namespace c02
                 auto r = X.emplace(p.a, p.b);
                 bool ins = rx.insert(p.a, p.b);
                 sx.insert(p.a, p.b);
-                if (r.second != ins || r.first == X.end() || r.first->first != p.a || r.first->second != *rx.find(p.a))
+                if (r.second != ins || r.first == X.end() || r.first->first != rx.find(p.a)->first || r.first->second != rx.find(p.a)->second)
                     bad(op, "return_value", mc::fmt("emplace(%d,%d) returned (.., %d), std::map (.., %d)", p.a, p.b, (int)r.second, (int)ins));
                 if (present)
                     mc::nontrivial();
@@ -310,8 +330,16 @@ namespace c02
             case M_AT_WRITE:
                 if (!present)
                     return false; // the throwing case is an observer (see check)
-                X.at(p.a) = p.b;
-                *rx.find(p.a) = p.b;
+                try
+                {
+                    X.at(p.a) = p.b;
+                }
+                catch (const std::out_of_range &)
+                {
+                    bad(op, "threw_for_present_key", mc::fmt("at(%d) threw although std::map%s holds an equivalent key", p.a, rx.str().c_str()));
+                    return true;
+                }
+                rx.find(p.a)->second = p.b;
                 sx.set(p.a, p.b);
                 break;
             case M_CLEAR:
@@ -448,25 +476,36 @@ namespace c02
             {
                 Map &m = *obj[i];
                 const Map &cm = m;
-                RefMap &r = ref[i];
+                Ref &r = ref[i];
                 const char *nm = i ? "B" : "A";
                 if (m.size() != r.size() || m.empty() != (r.size() == 0))
                     bad(op, "size", mc::fmt("%s.size()=%zu, std::map%s has %zu", nm, (size_t)m.size(), r.str().c_str(), r.size()));
                 for (int k = 0; k <= NK; k++)
                 {
-                    int *want = r.find(k);
+                    std::pair<int, int> *we = r.find(k); // the element equivalent to k under the comparator
+                    int *want = we ? &we->second : nullptr;
                     size_t c = cm.count(k);
                     if (c != (want ? 1u : 0u))
                         bad(op, "count", mc::fmt("%s.count(%d)=%zu, std::map%s says %d", nm, k, c, r.str().c_str(), want ? 1 : 0));
                     auto it = m.find(k);
                     auto cit = cm.find(k);
                     bool f = it != m.end(), cf = cit != cm.end();
-                    if (f != (want != nullptr) || cf != f || (f && (it->first != k || it->second != *want)) || (cf && (cit->first != k || cit->second != *want)))
+                    if (f != (want != nullptr) || cf != f || (f && (it->first != we->first || it->second != *want)) || (cf && (cit->first != we->first || cit->second != *want)))
                         bad(op, "find", mc::fmt("%s.find(%d): found=%d value=%d, std::map%s", nm, k, (int)f, f ? it->second : -1, r.str().c_str()));
-                    if (want && (m.at(k) != *want || cm.at(k) != *want))
-                        bad(op, "at", mc::fmt("%s.at(%d)=%d, std::map%s", nm, k, m.at(k), r.str().c_str()));
-                    if (want && cm[k] != *want) // const operator[]: present keys only (no std::map counterpart otherwise)
-                        bad(op, "const_index", mc::fmt("const %s[%d]=%d, std::map%s", nm, k, cm[k], r.str().c_str()));
+                    if (want && f) // (a wrong find() has been reported above)
+                    {
+                        try
+                        {
+                            if (m.at(k) != *want || cm.at(k) != *want)
+                                bad(op, "at", mc::fmt("%s.at(%d)=%d, std::map%s", nm, k, m.at(k), r.str().c_str()));
+                        }
+                        catch (const std::out_of_range &)
+                        {
+                            bad(op, "at", mc::fmt("%s.at(%d) threw, std::map%s", nm, k, r.str().c_str()));
+                        }
+                        if (cm[k] != *want) // const operator[]: present keys only (no std::map counterpart otherwise)
+                            bad(op, "const_index", mc::fmt("const %s[%d]=%d, std::map%s", nm, k, cm[k], r.str().c_str()));
+                    }
                 }
                 mc::outcome(r.str());
             }
@@ -503,7 +542,7 @@ namespace c02
         S_COMPARE_CTOR,
         S_INSERT_RVALUE // insert(int(k)) — appended
     };
-    template <class Set, class StdRef, bool HasCompareCtor> struct SetModel : mc::Model
+    template <class Set, class StdRef, bool HasCompareCtor, class Cmp = std::less<int>> struct SetModel : mc::Model
     {
         struct Op
         {
@@ -569,9 +608,9 @@ namespace c02
             case S_INSERT:
             case S_INSERT_RVALUE:
             {
-                bool present = std::find(rx.begin(), rx.end(), p.a) != rx.end();
+                bool present = std::find_if(rx.begin(), rx.end(), [&](int e) { return equiv<Cmp>(e, p.a); }) != rx.end();
                 op += present ? ".present" : ".absent";
-                if (present || (!rx.empty() && p.a < rx.back()))
+                if (present || (!rx.empty() && Cmp()(p.a, rx.back())))
                     mc::nontrivial();
                 if (p.kind == S_INSERT_RVALUE)
                     X.insert(int(p.a));
@@ -580,7 +619,7 @@ namespace c02
                 if (!present)
                 {
                     rx.push_back(p.a);
-                    std::sort(rx.begin(), rx.end());
+                    std::sort(rx.begin(), rx.end(), Cmp());
                 }
                 sx.insert(p.a);
                 break;
@@ -651,7 +690,7 @@ namespace c02
                     mc::violation(mc::fmt("C02.%s.%s.size", variant.c_str(), op.c_str()), "%s.size()=%zu, std::set%s", nm, (size_t)cs.size(), sstr(ref[i]).c_str());
                 for (int k = 0; k <= NK; k++)
                 {
-                    size_t want = std::find(ref[i].begin(), ref[i].end(), k) != ref[i].end();
+                    size_t want = std::find_if(ref[i].begin(), ref[i].end(), [&](int e) { return equiv<Cmp>(e, k); }) != ref[i].end();
                     if (cs.count(k) != want)
                         mc::violation(mc::fmt("C02.%s.%s.count", variant.c_str(), op.c_str()), "%s.count(%d)=%zu, std::set%s", nm, k, (size_t)cs.count(k), sstr(ref[i]).c_str());
                 }
